@@ -279,6 +279,11 @@ def check(ctx):
             ops = ["newfs", "mkdir d1", "mkdir d2"]
             live = {}
             nfd = 0
+            if h % 4 == 0:
+                # a payload larger than 64 KiB: an implementation that keeps the caller's slice for big data — the harness overwrites
+                # its buffer after every call — shows the overwritten bytes when the name is read back
+                ops.append("atomic d1 bigf %s" % hexdata(rnd, 70000))
+                live[("d1", "bigf")] = True
             for i in range(rnd.randrange(6, 22)):
                 d, n = rnd.choice(["d1", "d2"]), rnd.choice(names)
                 k = rnd.randrange(10)
